@@ -713,10 +713,12 @@ class RecordedSeries:
         return ctx().decide(z3.Select(self.env.state[f"hlen_{self.f}"], self.i) > 0)
 
     def __getitem__(self, k):
-        if k != 0:
-            raise EngineError("only series[0] is modelled")
+        if not isinstance(k, int) or k < 0:
+            raise EngineError("only series[k] with a literal k >= 0 is modelled")
         env = self.env
-        g = env.ghost.setdefault(f"first_{self.f}", {})
+        if not ctx().decide(z3.Select(env.state[f"hlen_{self.f}"], self.i) > k):
+            raise IndexError("list index out of range")
+        g = env.ghost.setdefault(f"first_{self.f}" if k == 0 else f"sample{k}_{self.f}", {})
         key = str(self.i)
         if key not in g:
             c = ctx()
